@@ -450,3 +450,59 @@ def check_C14(tier):
     res.distinct = len(kinds)
     res.extra["family_descriptors"] = nf
     return res.finish()
+
+
+def acc_descriptor(rec, clause):
+    return {"family": "accuracy", "clause": clause, "kind": rec.get("kind"), "n": rec.get("n")}
+
+
+def check_C12(tier):
+    res = Result("C12", tier, "exploration")
+    res.rule = ("The statement is statistical, so this is sampling, not exhaustion. The forward model of the statement "
+                "(harness/src/sim.rs: 2-4 helical tracks from a vertex with |x|,|y| <= 1 cm, |z| <= 0.8 m, uniform azimuth, "
+                "curvature radius 0.3-3.3 m of both signs, dz/ds in [-0.8, 0.8], ionisation drifted through the shipped "
+                "drift tables by inverse lookup, wire signals from the shipped wire response with induction on four "
+                "neighbours per side, pad signals from the shipped pad response over a Gaussian of per-event width, "
+                "digitised and packed into ADC / PWB / TRG banks under the simulation run number, noise-free) produces "
+                "batches of 200 (400) events; each is reconstructed by the library and recorded with true and "
+                "reconstructed vertex in units of 10 um. Accuracy.tla is the acceptance criterion of the statement "
+                "(efficiency >= 95 %, median |dz| <= 1.5 cm, 90th percentile <= 5 cm, median transverse error <= 4 cm, "
+                "|median dz| <= 3 mm; k-th order statistics, checked to be order statistics by MC_Accuracy); "
+                "Trace_Accuracy evaluates it per batch. Measured on the unchanged tree: efficiency 98.5-100 %, median "
+                "|dz| 0.5-1.4 mm, p90 7.6-9.2 mm, median transverse 2.0 cm, bias 0")
+    res.assumptions = ["the forward model is the harness's (written from the shipped tables and response files, independent of "
+                       "the library's reconstruction code); a change of the library is judged against it",
+                       "sampling: 3 (30) batches per run; the criterion is evaluated on each batch separately"]
+    cfg = write_cfg("MC_Accuracy", constants={"MaxLen": 5 if tier == "quick" else 7}, invariants=["QuantilesAreOrderStatistics"])
+    res.add_mc(tlc_model_check("MC_Accuracy", cfg, "mc_accuracy_" + tier, expect_actions=["Pick"], workers=4))
+    trace = os.path.join(BUILD, "traces", "C12_trace.ndjson")
+    batches, size = (3, 200) if tier == "quick" else (30, 400)
+    res.evaluations += run_vh(["accuracy", "--data", os.path.join(REPO, "physics", "data"), "--batches", str(batches),
+                               "--size", str(size), "--seed", str(seed())], trace, timeout=7200)
+    validate_dec_trace(res, trace, "C12", module="Trace_Accuracy", descriptor=acc_descriptor)
+    nev = 0
+    nfound = 0
+    with open(trace) as f:
+        for line in f:
+            rec = json.loads(line)
+            nev += rec.get("n", 0)
+            nfound += sum(1 for v in rec.get("reco", []) if v)
+            if len(res.samples) < 1:
+                res.add_sample({"case": rec.get("case"), "n": rec.get("n"), "first_truth": rec["truth"][:3], "first_reco": rec["reco"][:3]})
+    res.distinct = batches
+    res.evaluations = nev
+    res.extra["events"] = nev
+    res.extra["events_with_vertex"] = nfound
+    # binding self-test: shift every reconstructed z of one batch by 2 cm
+    rec = json.loads(open(trace).readline())
+    for v in rec["reco"]:
+        if v:
+            v[2] += 2000
+    p2 = trace + ".selftest"
+    open(p2, "w").write(json.dumps(rec) + "\n")
+    _, mism, _ = tlc_validate("Trace_Accuracy", p2, "C12_self")
+    okk = any(m[0] == rec["i"] for m in mism)
+    res.extra["binding_selftest"] = {"corrupted_record": rec["i"], "rejected": okk, "how": "every reconstructed z shifted by 2 cm"}
+    if not okk:
+        raise ToolError("binding self-test failed")
+    return res.finish()
